@@ -120,7 +120,8 @@ def _var_targets(prog):
 def _refs(args):
     seed, idx = args
     rng = random.Random(seed * 100057 + idx)
-    fs = lang.FileSpec(rng, max_rows=6, named_header=True, allow_blank=False, allow_ragged=False)
+    # ragged rows: a header reference skips the collected rows that do not reach its column
+    fs = lang.FileSpec(rng, max_rows=6, named_header=True, allow_blank=False, allow_ragged=True)
     g = gen.Gen(rng, fs, AND=True, groups=("core",))
     comps = []
     for _ in range(rng.choice([2, 3])):
@@ -132,18 +133,28 @@ def _refs(args):
     g1 = {"prog": prog, "cfg": {"AND": True, "noMatches": False, "keepUnmatched": False, "collecting": True, "noRun": False, "nexts": 0}}
     plain, tracked = _var_targets(prog)
     text1 = grouprun.member_text(g1, ident="a")
+    # the referenced group may have a second member that assigns some of the same variables: the group's variable is
+    # what the run left in it, i.e. the later member's value (docs/variables.md, "Sharing Variables")
+    texts1 = [text1]
+    second = rng.random() < 0.4
+    if second:
+        over = [n for n in plain if rng.random() < 0.6] or plain[:1]
+        comps_b = [f'@{n} = "from-b-{j}"' for j, n in enumerate(over)] + ["@onlyb = count_lines()"]
+        texts1.append("~ id: b ~ $data[1*][ " + " ".join(comps_b) + " ]")
     nruns = rng.choice([1, 2, 3])
     clock = pharness.FakeClock()
     clock.install()
     try:
         with scratch.silence():
-            cp = grouprun.setup_project("refs", fs.records, {"g1": [text1]})
+            cp = grouprun.setup_project("refs", fs.records, {"g1": texts1})
             last_records = fs.records
             for r_i in range(nruns):
                 clock.t = 36000 + 5 * r_i
                 if r_i > 0:
                     # the data changes between runs, so that "most recent run" is observable
                     rows = [list(fs.names)] + [[lang.FileSpec.cell(rng, kd) for kd in fs.kinds] for _ in range(rng.randint(1, 5))]
+                    # rows may stop short, but never before the columns the generated assignments rely on
+                    rows = [rw if (j == 0 or rng.random() < 0.7) else rw[: rng.randint(fs.minlen, fs.ncols)] for j, rw in enumerate(rows)]
                     runner.write_csv("src/data.csv", rows)
                     cp.file_manager.add_named_file(name="data", path="src/data.csv")
                     last_records = rows
@@ -152,6 +163,7 @@ def _refs(args):
                     return {"violation": {"kind": "refs", "what": "the referenced group raised", "raised": raised, "text": text1, "records": last_records}}
             res1 = cp.results_manager.get_named_results("g1")[0]
             src_vars = dict(res1.csvpath.variables)
+            member_vars = [dict(r.csvpath.variables) for r in cp.results_manager.get_named_results("g1")]
             src_headers = list(res1.csvpath.headers)
             ev = rec1.members[0]["events"]
             src_lines = [e["line"] for e in ev if e["ret"]]
@@ -162,8 +174,8 @@ def _refs(args):
             # the referring group
             refs, comps2 = [], []
             k = 0
-            for name in plain:
-                if name in src_vars:
+            for name in plain + (["onlyb"] if second else []):
+                if any(name in mv for mv in member_vars):
                     comps2.append(f"@r{k} = $g1.variables.{name}")
                     refs.append({"what": "variable", "name": name, "key": [], "hname": [], "var": f"r{k}"})
                     k += 1
@@ -172,7 +184,7 @@ def _refs(args):
                     comps2.append(f"@r{k} = $g1.variables.{name}.{key}")
                     refs.append({"what": "variable", "name": name, "key": txt(key), "hname": [], "var": f"r{k}"})
                     k += 1
-            if src_lines:
+            if src_lines and not second:          # a header reference to a group of several members needs an identity
                 h = rng.choice(fs.names)
                 comps2.append(f"@r{k} = $g1.headers.{h}")
                 refs.append({"what": "header", "name": "", "key": [], "hname": txt(h), "var": f"r{k}"})
@@ -183,29 +195,56 @@ def _refs(args):
             clock.t += 7
             cp.paths_manager.add_named_paths(name="g2", paths=[text2])
             rec2, raised2 = _run_group(cp, "g2")
-            info = {"referenced": text1, "referring": text2, "runs_of_referenced_group": nruns, "records": last_records}
+            info = {"referenced": texts1, "referring": text2, "runs_of_referenced_group": nruns, "records": last_records}
             if raised2:
                 return {"violation": {"kind": "refs", "what": "the referring group raised", "raised": raised2, **info}}
             p2 = rec2.members[0]["p"]
             try:
                 for r in refs:
                     r["got"] = runtrace.enc_insertion(p2.variables.get(r.pop("var")))
-                case = {"tid": idx, "kind": "refs", "vars": [{"n": n, "v": runtrace.enc_insertion(v)} for n, v in src_vars.items()],
+                case = {"tid": idx, "kind": "refs", "mvars": [[{"n": n, "v": runtrace.enc_insertion(v)} for n, v in mv.items()] for mv in member_vars],
                         "lines": _lines_enc(src_lines), "headers": [txt(h) for h in src_headers], "refs": refs}
             except OutOfModel:
                 return {"oom": True}
-            # a results reference used as the file name replays the referenced member's data.csv
+            # a results reference used as the file name replays the referenced member's data.csv; the group that
+            # replays it may itself be a chain: its first member reads the replayed data, a source-mode: preceding
+            # member reads what its predecessor collected from it
             replay_case = None
-            if src_lines:
-                cp.paths_manager.add_named_paths(name="g3", paths=["~ id: c ~ $x[*][ yes() ]"])
+            if src_lines and not second:
+                nm = rng.choice([1, 2, 3])
+                filt = []
+                for j in range(nm):
+                    c = rng.choice(["yes()", "yes()"] + [f"#{x}" for x in range(fs.ncols)] + [f"not(#{fs.ncols - 1})", "firstscan()", "not(firstscan())"])
+                    filt.append(c)
+                precs = [False] + [rng.random() < 0.75 for _ in range(nm - 1)]
+                texts3 = [f"~ id: c{j} " + ("source-mode: preceding " if precs[j] else "") + f"~ $x[*][ {filt[j]} ]" for j in range(nm)]
+                cp.paths_manager.add_named_paths(name="g3", paths=texts3)
                 clock.t += 3
                 rec3, raised3 = _run_group(cp, "g3", filename="$g1.results.:last.a")
+                info = dict(info, replaying=texts3)
                 if raised3:
+                    if "FileNotFoundError" in raised3 and "data.csv" in raised3:
+                        return {"violation": {"kind": "chain", "what": "the chained run raised", "raised": raised3, **info}}
                     return {"violation": {"kind": "refs", "what": "replaying $g1.results.:last.a raised", "raised": raised3, **info}}
-                shown3 = [e["line"] for e in rec3.members[0]["events"]]
-                replay_case = {"tid": idx + 500000, "kind": "chain", "file": _lines_enc(last_records),
-                               "stages": [{"prec": False, "shown": _lines_enc([e["line"] for e in ev]), "returned": _lines_enc(src_lines), "src": "orig", "nshown": len(ev)},
-                                          {"prec": True, "shown": _lines_enc(shown3), "returned": _lines_enc(shown3), "src": "pred", "nshown": len(shown3)}]}
+                archive = cp.config.archive_path
+                rd1 = pharness.run_dirs(archive, "g1")[-1]
+                rd3 = pharness.run_dirs(archive, "g3")[-1]
+                origin = os.path.join(archive, "g1", rd1, "a", "data.csv")
+                # in Chain's terms the file of this run is the replayed data: exactly the lines the referenced member collected
+                st3 = []
+                for j in range(nm):
+                    evj = rec3.members[j]["events"] if j < len(rec3.members) else []
+                    man = pharness.read_json(os.path.join(archive, "g3", rd3, f"c{j}", "manifest.json"))
+                    adf = man.get("actual_data_file") or ""
+                    if j > 0 and adf.endswith(os.path.join(f"c{j-1}", "data.csv")) and os.path.join("g3", rd3) in adf:
+                        src = "pred"
+                    elif os.path.abspath(adf) == os.path.abspath(origin):
+                        src = "orig"
+                    else:
+                        src = "?" + adf
+                    st3.append({"prec": precs[j], "shown": _lines_enc([e["line"] for e in evj]),
+                                "returned": _lines_enc([e["line"] for e in evj if e["ret"]]), "src": src, "nshown": len(evj)})
+                replay_case = {"tid": idx + 500000, "kind": "chain", "file": _lines_enc(src_lines), "stages": st3}
     finally:
         clock.uninstall()
     return {"case": case, "traces": [tr1], "info": info, "extra_case": replay_case}
